@@ -102,12 +102,12 @@ def shards(tier, seed):
         add("term", 700, 4)
         add("limits", 300, 1)
     else:
-        add("rt", 12000, 40)
-        add("form", 8000, 16)
-        add("names", 40000, 8)
+        add("rt", 7000, 40)
+        add("form", 5000, 16)
+        add("names", 25000, 8)
         add("edge", 1, 8)
-        add("term", 10000, 32)
-        add("limits", 5000, 8)
+        add("term", 6000, 32)
+        add("limits", 3000, 8)
     # edge shards enumerate a grid slice each
     k = 0
     ne = sum(1 for s in out if s["kind"] == "edge")
@@ -330,10 +330,16 @@ def check_names(o, rp: R.Part, pp, here, v, rec, level="reader"):
         v.append((mech, f"{here}: {attr} given {orig!r}, header {hv!r}, reader returned {got!r} (reference reads {rd.get(attr)!r})"))
 
 
-def check_reader_tree(plan, m: R.Multipart, obs, scripts, path, v, rec, complete=True):
+def check_reader_tree(plan, m: R.Multipart, obs, scripts, path, v, rec, complete=True, skip_last=False):
+    """skip_last: the reader raised while working on the deepest last observation; everything before it is judged."""
     form = plan["subtype"] == "form-data"
     n0 = len(v)
     for i, o in enumerate(obs):
+        if skip_last and i == len(obs) - 1:
+            if o.get("nested") and o.get("children") and i < len(m.parts) and m.parts[i].children is not None and plan["parts"][i]["kind"] == "nested":
+                sub_sc = scripts[i % len(scripts)].get("sub") if scripts else None
+                check_reader_tree(plan["parts"][i]["sub"], m.parts[i].children, o["children"], sub_sc, f"{path}/{i}", v, rec, complete=False, skip_last=True)
+            break
         if i >= len(m.parts):
             v.append(("reader:part-count", f"{path}: reader yielded more parts than the wire has"))
             return
@@ -365,8 +371,12 @@ def check_reader_tree(plan, m: R.Multipart, obs, scripts, path, v, rec, complete
                     mech = READLINE_LOOKALIKE
                 v.append((mech, f"{here}: {api} returned {short(o['data'])}, part body on the wire {short(rp.raw)} first diff @{first_diff(o['data'], rp.raw)} ({tag}) chunks={o.get('chunks')}"))
         if "prefix" in o:
-            if not rp.raw.startswith(o["prefix"]):
+            if api == "partial_readline" and lookalike_line(rp.raw, m.boundary) and (not rp.raw.startswith(o["prefix"]) or ("rest" in o and o["prefix"] + o["rest"] != rp.raw)):
+                v.append((READLINE_LOOKALIKE, f"{here}: lines {short(o['prefix'])} rest {short(o.get('rest'))} of {short(rp.raw)}"))
+            elif not rp.raw.startswith(o["prefix"]):
                 v.append((f"reader:{api}:prefix-mismatch", f"{here}: {short(o['prefix'])} is not a prefix of {short(rp.raw)}"))
+            elif "rest" in o and o["prefix"] + o["rest"] != rp.raw:
+                v.append((READLINE_MIX, f"{here}: readline() x{o.get('nlines')} gave {short(o['prefix'])}, read() then gave {short(o['rest'])}; part body {short(rp.raw)}"))
         qs = quartet_split(o, pp)
         if qs:
             v.append((f"reader:read_chunk:base64-quartet-split:{qs[0]}", f"{here}: {qs[1]}; read sizes {scripts[i % len(scripts)].get('sizes') if scripts else None}, chunk lengths {o.get('chunks')}, decode: {o.get('chunk_decode_error') or 'no exception'}"))
@@ -407,6 +417,11 @@ def check_reader_tree(plan, m: R.Multipart, obs, scripts, path, v, rec, complete
 READLINE_LOOKALIKE = "reader:readline:content-line-starting-with-dash-boundary"
 
 
+# readline() keeps one look-ahead line in part._unread; read()/read_chunk()/release()/next() on the same part do not
+# know about it: the line is skipped and later replayed to the parent as if it were the boundary line.
+READLINE_MIX = "reader:readline-then-other-api:lookahead-line-misplaced"
+
+
 def lookalike_line(raw: bytes, boundary: bytes) -> bool:
     """The part body has a *line* (text after an LF) that begins with the dash-boundary.  It is not a delimiter
     (the generators never emit CRLF--boundary inside content, and what follows is not a delimiter line end)."""
@@ -441,6 +456,8 @@ def exception_context(obs, m, plan) -> str:
         return "-after-empty-nested-multipart"
     if api in ("readline", "partial_readline") and lookalike_line(rp.raw, mm.boundary):
         return "!readline-lookalike"
+    if api == "partial_readline":
+        return "!readline-mix"
     return f"-after-{api}"
 
 
@@ -564,12 +581,12 @@ def read_variant(loop, plan, m, wire, ctype, seg, feed, scripts, rec, ctx, witne
     rec.count("stream-steps", stream.steps)
     v = []
     if exc is not None:
-        check_reader_tree(plan, m, obs[:-1] if obs else [], scripts, "", v, rec, complete=False)
+        check_reader_tree(plan, m, obs, scripts, "", v, rec, complete=False, skip_last=True)
         if isinstance(exc, L.BudgetExceeded):
             v.append((nonterm_mechanism(exc, obs, stream) + ":valid-body", f"steps>{budget} (units={u}) calls={stream.calls} parts={len(obs)}"))
         else:
             ectx = exception_context(obs, m, plan)
-            mech = READLINE_LOOKALIKE if ectx == "!readline-lookalike" else f"reader:exception{ectx}:{type(exc).__name__}@{L.where_in_aiohttp(exc)}"
+            mech = READLINE_LOOKALIKE if ectx == "!readline-lookalike" else READLINE_MIX if ectx == "!readline-mix" else f"reader:exception{ectx}:{type(exc).__name__}@{L.where_in_aiohttp(exc)}"
             v.append((mech, f"{exc!r} after {len(obs)} parts; last api={obs[-1].get('api') if obs else None} script={json.dumps(scripts)[:300]}"))
     else:
         check_reader_tree(plan, m, obs, scripts, "", v, rec)
